@@ -514,3 +514,24 @@ def rule_helmholtz(ctx, mod, ci):
                 if not ok:
                     break
             ctx.check(ok, R, "from_shorthand[%s]" % letter, fr.where(), "Note().from_shorthand(%s<accidentals><marks>)" % letter, why)
+    # text that is no Helmholtz spelling of a note is rejected, as the same junk is in a plain name, and leaves the note alone
+    junk = [("foreign character after the letter", "c$"), ("letters after the letter", "cis"), ("digit", "c4"), ("accidental before the letter", "#c"),
+            ("two note letters", "cd"), ("foreign character after the marks", "c'x"), ("foreign character after the marks (upper)", "C,x"),
+            ("no note letter", "h"), ("marks only", ",,"), ("empty", "")]
+    for label, text in junk:
+        before = {"name": "G", "octave": 6, "velocity": 64, "channel": 1}
+        try:
+            paths = paths_of(ctx.repo, fr, lambda: [note_obj(ci, **before), text])
+        except CannotDecide as e:
+            raise AnalysisError("from_shorthand(%r): %s" % (text, e))
+        ok, why = bool(paths), "no outcome"
+        for p in paths:
+            o = p.interp.args[0]
+            after = {k: o.attrs.get(k) for k in before}
+            if p.kind != "raise":
+                ok, why = False, "%r (%s) is read as %s-%s instead of being rejected" % (text, label, after["name"], after["octave"])
+                break
+            if after != before:
+                ok, why = False, "%r is rejected (%s) but the note has changed to %s" % (text, p.value, after)
+                break
+        ctx.check(ok, R, "from_shorthand.rejects[%s]" % label, fr.where(), "Note('G', 6).from_shorthand(%r)" % text, why)
